@@ -130,15 +130,16 @@ func runC13(b *Batch) {
 		if b.Skip(i) {
 			continue
 		}
-		func() {
+		i := i
+		b.Guard(i, "C13", func() {
 			defer func() {
 				if r := recover(); r != nil {
 					b.R.Violate(b, i, "C13:panic", fmt.Sprintf("panic during dump/restore: %v", r), nil)
 				}
 			}()
 			c13Case(b, i)
-			collectGarbage(i)
-		}()
+		})
+		collectGarbage(i)
 	}
 }
 
